@@ -30,6 +30,14 @@ THEOREMS = [
     "Config.file_eq_cli", "Config.file_eq_cli_flag", "Config.file_eq_cli_count", "Config.parseArg_render",
     "Config.later_file_wins", "Config.evalList_listLit", "Config.ini_list_roundtrip",
     "Config.flagsDisjointB_iff", "Config.keysDisjointB_iff", "Config.noSepFlagB_iff",
+    # round 3: the exact known-key rule, any number of files, the rule per action type, multi-line lists, section names,
+    # TOML section lookup and stringification, the composite parser, Options.from_namespace
+    "Config.isKnown_iff", "Config.last_file_wins", "Config.cli_overrides_files", "Config.append_cli_replaces_file",
+    "Config.store_cli_replaces_file", "Config.count_cli_replaces_file", "Config.verbosity_spec", "Config.ini_multiline_list",
+    "Config.section_constants", "Config.getTomlSection_tool_pydoctor", "Config.tomlParse_first", "Config.tomlParse_skip",
+    "Config.tnodeItem_spec", "Config.toml_bool_flag", "Config.composite_ini_first", "Config.composite_toml_first",
+    "Config.composite_fallback", "Config.compositeOrder_spec", "Config.makeHtml_spec", "Config.sourceTemplate_spec",
+    "Config.finalSourcepath_spec", "Config.sidebarOk_spec",
 ]
 PARTIAL: dict = {}     # every property statement is at full strength for the code at /repo HEAD; `…_old_…` are about earlier code
 RULE = ("(a) exhaustive: every string of length <=3 (quick) / <=4 (thorough) over {a, space, \", ', \\, #, ;, =, %, [, ], newline, "
@@ -51,7 +59,16 @@ RULE = ("(a) exhaustive: every string of length <=3 (quick) / <=4 (thorough) ove
         "package; every shape on which toml.loads raises something else than TomlDecodeError (the corpus; its size and exception "
         "classes are in evidence) plus a sample of the others is written unquoted for every string-typed option and the free-text "
         "append options into setup.cfg and pydoctor.ini under each of the three section spellings, as first and as later key: "
-        "Options from the file == Options from `--opt=value`; an exception other than SystemExit is a failure.")
+        "Options from the file == Options from `--opt=value`; an exception other than SystemExit is a failure. (d) run FIRST, "
+        "whatever the seed: the recorded input of every C20 finding (open ones must still fail with their signature, fixed ones "
+        "must pass) and the shape each seeded change needs (near-miss unknown keys in the three formats, a triple-quoted value "
+        "over two lines, the GitHub template unquoted in setup.cfg and in a --config file, TOML integer 0 for int options, an "
+        "INI-only --config file followed by a pyproject.toml with a comment and a literal string). (e) pydoctor's own parsing "
+        "steps against their transcriptions: parse_toml_section_name on ~1000 names over {a b . \" ' space : \\ tab}; "
+        "TomlConfigParser.parse on ~400 generated TOML documents (tool/pydoctor tables present, empty, scalar, shadowed); the real "
+        "CompositeConfigParser over stub parsers for every parser list x outcome x 18 stream names (504 cases); "
+        "Options.from_namespace (make-html default, view-source template for 17 bases x 3 explicit templates, verbosity, sidebar "
+        "depths, sourcepath order); multi-file merges now include an explicit --config file.")
 ASSUMPTIONS = [
     "configargparse, configparser, toml and argparse are parameters of the model (DESIGN 4.4): their behaviour is "
     "transcribed (merge order, already_on_command_line, convert_item_to_command_line_arg, str.strip, "
@@ -68,8 +85,12 @@ ASSUMPTIONS = [
     "triple-quoted forms are written to INI files only when every line of the string survives configparser's "
     "continuation-line rules (no leading/trailing blanks per line, no blank line, no line starting with # or ;): a raw "
     "newline in an INI value is file syntax, not quoting",
-    "CompositeConfigParser hands every file to the toml package first; toml is a parameter whose failure modes (which texts "
-    "raise which exception class) are observed at run time, not modelled",
+    "CompositeConfigParser (order by extension, fall-back) is modelled with the two parsers' outcomes (accepts / raises) as "
+    "parameters; which texts the toml package accepts or refuses, and with which exception class, is observed at run time",
+    "TOML documents are modelled as toml.load returns them (nested tables, strings, integers, booleans, arrays of scalars); "
+    "str() of floats, dates, nested arrays and tables is `unmodelled`; csv.reader is transcribed for one-line section names",
+    "parse_path / findClassFromDottedName / parse_privacy_tuple (the Options converters) are not modelled: they receive the same "
+    "text from a file and from the command line (file_eq_cli) and are compared as black boxes through Options equality",
     "abbreviated long options and clustered short options (--proj, -vv) are not seen by configargparse's "
     "already_on_command_line; the model covers exact option strings; abbreviations are probed with the direct oracle only",
 ]
@@ -92,6 +113,7 @@ SIG_CONF_AS_TOML = "config-file-other-extension-read-as-toml:quoted-value-differ
 
 def compare(ctx: Ctx, stream: str, reqs, impls, pay=None) -> None:
     """ctx.compare, retried when the driver binary is being relinked by a concurrent `lake build`"""
+    ctx.count("corr:" + stream, len(reqs))
     for attempt in range(4):
         try:
             ctx.compare(stream, reqs, impls, pay)
@@ -1123,6 +1145,13 @@ def stream_options(ctx: Ctx, sc: Scratch) -> None:
         cli: List[str] = []
         if ctx.rng.random() < 0.5:
             cli.append("sub")
+        # an explicit --config file: opened after the default ones, so read FIRST in reversed(config_streams): it wins
+        explicit = rep % 3 == 0
+        if explicit:
+            lines = [f"{o['key']} = extra" for o in ctx.rng.sample(stores, 2)] + ["verbose = 1"] * (rep % 2) + ["intersphinx = [\"extra\"]"] * (rep % 4 == 0)
+            sc.write("extra.conf", "[pydoctor]\n" + "\n".join(lines) + "\n")
+            cli.append("--config=extra.conf")
+            present.append("extra.conf")
         for o in ctx.rng.sample(stores, 1) + ctx.rng.sample(appends, 1) + [by_flag["--verbose"], by_flag["--warnings-as-errors"]]:
             if ctx.rng.random() < 0.5:
                 c = cli_for(o, "2" if o["kind"] == "count" else "true" if o["kind"] == "flag" else "cli", rep)
@@ -1131,6 +1160,9 @@ def stream_options(ctx: Ctx, sc: Scratch) -> None:
             cli += ["--", "sub/x"]
         r = run_ns(cli)
         record(present, cli, r, {"files": present, "cli": cli, "case": "multi"})
+        if explicit:
+            os.remove("extra.conf")
+            ctx.count("option:multi-file:with---config")
         ctx.case("multi " + " ".join(present) + " | " + " ".join(cli), bool(present) and bool(cli), None)
         ctx.count(f"option:multi-file:{len(present)}")
     # -- model comparison of everything recorded
@@ -1343,17 +1375,356 @@ def impl_line(model_out: str, r: Dict[str, Any], table: List[Dict[str, Any]], ct
     return head + " | " + sect("eff", toks)
 
 
+# ------------------------------------------------------------------ round 3: section names, TOML lookup, composite, from_namespace
+
+def stream_sections_and_toml_lookup(ctx: Ctx) -> None:
+    import toml
+    from pydoctor._configparser import parse_toml_section_name, TomlConfigParser
+    from pydoctor.options import CONFIG_SECTIONS
+    # parse_toml_section_name ~ parseSectionName
+    names = list(CONFIG_SECTIONS) + ["a.b.c", " d.e.f ", " g .  h  . i ", ' j . "k" . \'l\' ', '"a.b".c', "", ".", "a.", ".a", '"', '""', '"a"b.c',
+                                      '"a""b".c', "'a.b'.c", "a:b", '"a', "a\\.b", "'''x'''.y"]
+    pool = ["a", "b", ".", '"', "'", " ", ":", "\\", "\t"]
+    for _ in range(1500 if ctx.quick else 15000):
+        names.append("".join(ctx.rng.choice(pool) for _ in range(ctx.rng.randint(0, 7))))
+    names = list(dict.fromkeys(names))
+    reqs, impl = [], []
+    for n in names:
+        try:
+            out = sect("ok", [enc(p) for p in parse_toml_section_name(n)])
+        except ValueError:
+            out = "unmodelled"       # unquote_str refused a part (the model has one outcome for "no list of parts")
+        reqs.append("config section " + enc(n))
+        impl.append(out)
+        ctx.case("section " + enc(n), any(c in n for c in "\"'. "), None)
+        ctx.count("section-name:" + out.split()[0])
+    compare(ctx, "parse_toml_section_name~parseSectionName", reqs, impl, names)
+    # TomlConfigParser.parse (get_toml_section, first non-empty section, str()) ~ tomlParse, on the document toml.loads returns
+    paths = [parse_toml_section_name(s) for s in CONFIG_SECTIONS]
+
+    def node(v: Any) -> str:
+        if isinstance(v, dict):
+            return f"T {len(v)} " + " ".join(enc(k) + " " + node(x) for k, x in v.items()) if v else "T 0"
+        if isinstance(v, bool):
+            return "B 1" if v else "B 0"
+        if isinstance(v, int):
+            return f"I {v}"
+        if isinstance(v, str):
+            return "S " + enc(v)
+        if isinstance(v, list):
+            if all(isinstance(x, (str, int)) for x in v):
+                return sect(f"L {len(v)}", [("b:1" if x is True else "b:0" if x is False else f"i:{x}" if isinstance(x, int) else "s:" + enc(x)) for x in v])
+            return f"LX {len(v)}"
+        return "O"
+
+    def rand_val(depth: int = 0) -> Any:
+        r = ctx.rng.random()
+        if r < 0.3:
+            return ctx.rng.choice(["", "x", "a b", "True", "0"])
+        if r < 0.45:
+            return ctx.rng.choice([0, 1, -3, 42])
+        if r < 0.6:
+            return ctx.rng.choice([True, False])
+        if r < 0.75:
+            return ctx.rng.choice([[], ["a"], ["a", "b c"], [1, 2], [True], [["n"]], [{"t": 1}]])
+        if r < 0.78:
+            return 1.5
+        if r < 0.93:
+            return ctx.rng.choice(["HIDDEN:a.b", "é", "#x", "a=b", "[x]", "'q'"])
+        return {ctx.rng.choice(["k", "project-name", "verbose"]): rand_val(depth + 1) for _ in range(ctx.rng.randint(0, 2))} if depth < 2 else "deep"
+
+    def rand_section() -> Any:
+        r = ctx.rng.random()
+        if r < 0.15:
+            return {}
+        if r < 0.3:
+            return ctx.rng.choice(["x", 0, 1, True, False, [], ["l"], ""])
+        return {k: rand_val() for k in ctx.rng.sample(["project-name", "verbose", "privacy", "warnings-as-errors", "k", "pyval-repr-maxlines"], ctx.rng.randint(1, 4))}
+
+    docs: List[Dict[str, Any]] = [
+        {"tool": {"pydoctor": {"project-name": "P", "verbose": 0, "warnings-as-errors": True, "privacy": ["HIDDEN:a"]}}},
+        {"tool": "x"}, {"tool": {"pydoctor": "x"}}, {"tool": {"pydoctor": {}}, "pydoctor": {"project-name": "second"}},
+        {"tool": {}, "tool:pydoctor": {"k": "v"}}, {"pydoctor": {"pyval-repr-maxlines": 0, "sidebar-toc-depth": 0}}, {},
+        {"tool": {"poetry": {"name": "x"}}, "pydoctor": 0}, {"tool": 0, "pydoctor": {"k": "v"}}, {"tool": ["l"], "pydoctor": {"k": "v"}},
+    ]
+    for _ in range(400 if ctx.quick else 5000):
+        d: Dict[str, Any] = {}
+        if ctx.rng.random() < 0.3:
+            d["build-system"] = {"requires": ["setuptools"]}
+        if ctx.rng.random() < 0.7:
+            t = ctx.rng.random()
+            d["tool"] = ({"pydoctor": rand_section(), **({"other": {"x": 1}} if ctx.rng.random() < 0.4 else {})} if t < 0.75 else
+                         {"other": {"x": 1}} if t < 0.85 else ctx.rng.choice(["x", 0, 1, [], ["a"], {}]))
+        if ctx.rng.random() < 0.4:
+            d["tool:pydoctor"] = rand_section()
+        if ctx.rng.random() < 0.5:
+            d["pydoctor"] = rand_section()
+        docs.append(d)
+    reqs, impl, pay = [], [], []
+    for d in docs:
+        try:
+            text = toml.dumps(d)
+            doc = toml.loads(text)
+        except Exception:
+            ctx.count("toml-doc:not-dumpable")
+            continue
+        try:
+            res = TomlConfigParser(CONFIG_SECTIONS).parse(io.StringIO(text))
+            out = sect("ok", [enc(k) + " " + ("l:" + ",".join(enc(x) for x in v) if isinstance(v, list) else "s:" + enc(v)) for k, v in res.items()])
+        except AttributeError:
+            out = "AttributeError"
+        except Exception as e:  # noqa: BLE001
+            out = "RAISE:" + type(e).__name__
+        reqs.append(f"config tomlparse {len(paths)} " + " ".join(f"{len(p)} " + " ".join(enc(x) for x in p) for p in paths) + " " + node(doc))
+        impl.append(out)
+        pay.append({"toml": text})
+        ctx.case("tomlparse " + text, len(doc) > 1, None)
+    outs = model(ctx, reqs)
+    for i, m in enumerate(outs):
+        if m == "unmodelled":
+            ctx.count("toml-doc:unmodelled(str() of float/nested value)")
+            impl[i] = "unmodelled"
+        else:
+            ctx.count("toml-doc:" + impl[i].split()[0])
+    compare(ctx, "TomlConfigParser.parse(document)~tomlParse", [" ".join(r.split()) for r in reqs], impl, pay)
+
+
+def stream_composite(ctx: Ctx) -> None:
+    """the real CompositeConfigParser class over stub parsers (subclasses of the real ones, so that isinstance decides as
+    in production) ~ compositeParse; then the real PydoctorConfigParser on files that both parsers accept differently"""
+    from pydoctor._configparser import CompositeConfigParser, TomlConfigParser, IniConfigParser
+    from pydoctor.options import PydoctorConfigParser
+    from configargparse import ConfigFileParserException
+    log: List[str] = []
+    refusal: List[Any] = [ValueError]
+
+    def stub(base: Any, tag: str, ok: bool) -> Any:
+        class S(base):   # type: ignore[misc,valid-type]
+            def __init__(self) -> None:
+                pass
+
+            def parse(self, stream: Any) -> Any:
+                log.append(tag)
+                if not ok:
+                    # real parsers refuse with ConfigFileParserException, the libraries under them with anything
+                    raise refusal[0]("stub refuses")
+                return {"who": "toml" if tag == "t" else "ini"}
+        return S()
+
+    names: List[Any] = [None, 3, "x.ini", "setup.cfg", "./pydoctor.ini", "pyproject.toml", "a.toml", "ini", ".ini", ".cfg", "X.INI", "setup.cfg.bak",
+                        "pydoctor.conf", "", "cfg", "a.inix", "dir.ini/file", "<stdin>"]
+    reqs, impl = [], []
+    for kinds in ("ti", "it", "t", "i", "tit", "iti", ""):
+        for tok in (True, False):
+            for iok in (True, False):
+                for nm in names:
+                    log.clear()
+                    refusal[0] = [ValueError, ConfigFileParserException, IndexError, KeyError][len(reqs) % 4]
+                    comp = CompositeConfigParser([(lambda p=stub(TomlConfigParser if k == "t" else IniConfigParser, k, tok if k == "t" else iok): p) for k in kinds])
+                    st = io.StringIO("x")
+                    if nm is not None:
+                        st.name = nm   # type: ignore[attr-defined]
+                    try:
+                        who = comp.parse(st)["who"]
+                    except ConfigFileParserException:
+                        who = "error"
+                    except Exception as e:   # noqa: BLE001 - a refusal that escapes the composite parser
+                        who = "raise:" + type(e).__name__
+                    reqs.append(f"config composite {'-' if not isinstance(nm, str) else enc(nm)} {int(tok)} {int(iok)} {kinds or '-'}")
+                    impl.append(f"{who} | tried {''.join(log)}")
+                    ctx.case(reqs[-1], isinstance(nm, str) and tok and iok and len(kinds) > 1, None)
+                    ctx.count("composite:" + who)
+    compare(ctx, "CompositeConfigParser.parse~compositeParse", [" ".join(r.split()) for r in reqs], [" ".join(x.split()) for x in impl], None)
+    # direct oracle: the production parser on a text both syntaxes accept with different meanings
+    text = "[pydoctor]\nproject-name = 'a\\\\b'\n"
+    for nm, want in (("pydoctor.ini", "a\\b"), ("setup.cfg", "a\\b"), ("pyproject.toml", "a\\\\b")):
+        got = PydoctorConfigParser.parse(_named(io.StringIO(text), nm)).get("project-name")
+        ctx.count("composite:production-parser")
+        if got != want:
+            ctx.fail(SIG_INI_AS_TOML if nm != "pyproject.toml" else "toml-file-read-as-ini", {"file": nm, "form": "1s", "s": "a\\b", "written": "'a\\\\b'"},
+                     f"{nm}: {text!r} read as {got!r}, the {'INI' if nm != 'pyproject.toml' else 'TOML'} rules say {want!r}")
+
+
+def stream_from_namespace(ctx: Ctx, sc: Scratch) -> None:
+    from pydoctor import options as O
+    reqs, impl = [], []
+    sc.clear()
+    # --make-html default
+    for g in (0, 1):
+        for t in (0, 1):
+            for m in (0, 1):
+                cli = (["--make-html"] if g else []) + (["--testing"] if t else []) + (["--make-intersphinx"] if m else [])
+                r = sc.run(cli)
+                reqs.append(f"config makehtml {g} {t} {m}")
+                impl.append(str(r["options"].makehtml) if r["kind"] == "ok" else short(r))
+                # the same from a file
+                sc.write("setup.cfg", "[tool:pydoctor]\n" + ("make-html = true\n" if g else "") + ("testing = yes\n" if t else "") + ("make-intersphinx = 1\n" if m else ""))
+                rf = sc.run([])
+                sc.clear()
+                ctx.case(reqs[-1], bool(g or t or m), None)
+                if outcome_key(rf) != outcome_key(r):
+                    ctx.fail("file-ne-cli:flag:ini", {"mode": "eq", "file": "setup.cfg", "text": "make-html/testing/make-intersphinx", "cli": cli},
+                             f"make-html={g} testing={t} make-intersphinx={m}: file and command line differ{diff_opts(rf, r)}")
+    # view-source template detection
+    bases = [None, "", "https://github.com/twisted/pydoctor/tree/master", "https://sourceforge.net/p/x/code/HEAD/tree", "http://sourceforge.net/x",
+             "https://bitbucket.org/u/r/src/master", "http://bitbucket.org/", "https://sourceforge.net", "https://sourceforge.netx/", " https://bitbucket.org/x",
+             "HTTPS://BITBUCKET.ORG/x", "httpss://bitbucket.org/", "ftp://sourceforge.net/", "https://gitlab.com/a/b", "x", "https://bitbucket.org", "http://sourceforge.net/\nx"]
+    for b in bases:
+        reqs.append(f"config template - {'-' if b is None else enc(b)}")
+        impl.append(enc(O._get_viewsource_template(b)))
+        for ex in (None, "{mod_source_href}#n{lineno}", ""):
+            cli = ([f"--html-viewsource-base={b}"] if b is not None else []) + ([f"--html-viewsource-template={ex}"] if ex is not None else [])
+            r = sc.run(cli)
+            reqs.append(f"config template {'-' if ex is None else enc(ex)} {'-' if b is None else enc(b)}")
+            impl.append(enc(r["options"].htmlsourcetemplate) if r["kind"] == "ok" else short(r))
+            ctx.case(reqs[-1], b is not None, None)
+    # verbosity
+    for a in range(4):
+        for q in range(4):
+            r = sc.run(["-v"] * a + ["--quiet"] * q)
+            reqs.append(f"config verbosity {a} {q}")
+            impl.append(str(r["options"].verbosity) if r["kind"] == "ok" else short(r))
+            sc.write("pydoctor.ini", f"[pydoctor]\nverbose = {a}\nquiet = {q}\n")
+            rf = sc.run([])
+            sc.clear()
+            ctx.case(reqs[-1], a > 0 and q > 0, None)
+            if outcome_key(rf) != outcome_key(r):
+                ctx.fail("file-ne-cli:count:ini", {"mode": "eq", "file": "pydoctor.ini", "text": f"[pydoctor]\nverbose = {a}\nquiet = {q}\n", "cli": ["-v"] * a + ["--quiet"] * q},
+                         f"verbose={a} quiet={q}: file and command line differ{diff_opts(rf, r)}")
+    # sidebar depth checks
+    for e in (-1, 0, 1, 2, 5):
+        for t in (-2, -1, 0, 1, 6):
+            r = sc.run([f"--sidebar-expand-depth={e}", f"--sidebar-toc-depth={t}"])
+            reqs.append(f"config sidebar {e} {t}")
+            impl.append("ok" if r["kind"] == "ok" else "error" if r["kind"] == "exit" else short(r))
+            ctx.case(reqs[-1], e < 1 or t < 0, None)
+    compare(ctx, "Options.from_namespace/__attrs_post_init__~makeHtml/sourceTemplate/verbosity/sidebarOk", reqs, impl, None)
+    # sourcepath: positionals, then --add-package entries, in order (finalSourcepath)
+    for pos, pkgs in ((["sub"], ["sub/x"]), ([], ["sub/x", "sub"]), (["sub/x", "sub"], []), (["sub"], ["sub", "sub/x"])):
+        r = sc.run(pos + [f"--add-package={p}" for p in pkgs])
+        sc.write("pyproject.toml", "[tool.pydoctor]\nadd-package = [" + ", ".join(toml_basic(p) for p in pkgs) + "]\n")
+        rf = sc.run(pos)
+        sc.clear()
+        want = [os.path.realpath(p) for p in pos + pkgs]
+        ctx.count("from_namespace:sourcepath")
+        ctx.case("sourcepath " + " ".join(pos) + " | " + " ".join(pkgs), bool(pos and pkgs), None)
+        for rr, how in ((r, "command line"), (rf, "pyproject.toml")):
+            got = [str(p) for p in rr["options"].sourcepath] if rr["kind"] == "ok" else None
+            if got != want:
+                ctx.fail("sourcepath-order", {"pos": pos, "pkgs": pkgs}, f"sourcepath from {how}: {got} != positionals then packages {want}")
+
+
+def stream_corpus(ctx: Ctx, sc: Scratch) -> None:
+    """runs FIRST: the input of every recorded finding (open ones must still fail with their signature, fixed ones must pass)
+    and the shape every seeded change needs — detection of these never depends on the seed"""
+    from ..core import load_known
+    headers = dict((f, h) for f, h, _ in FILES)
+    for k in load_known().get("C20", []):
+        inp, sig, status = k.get("input") or {}, k["signature"], k.get("status", "open")
+        bad = None
+        if "s" in inp and "file" in inp:
+            fname = inp["file"]
+            qd = inp.get("written") or py_quote(inp.get("form", "1d"), inp["s"])
+            sc.clear()
+            sc.write(fname, f"{headers.get(fname, '[pydoctor]')}\nproject-name = {ini_embed(qd) if fname != 'pyproject.toml' else qd}\n")
+            r = sc.run([f"--config={fname}"] if inp.get("config_arg") else [])
+            got = r["options"].projectname if r["kind"] == "ok" else None
+            bad = None if got == inp["s"] else f"{fname}: project-name = {qd!r} read back as {got!r} ({short(r)})"
+        elif inp.get("mode") == "override":
+            sc.clear()
+            sc.write(inp["file"], inp["text"])
+            rb = sc.run(inp["cli"])
+            sc.clear()
+            rc = sc.run(inp["cli"])
+            bad = None if outcome_key(rb) == outcome_key(rc) else f"{inp['file']} {inp['text']!r} + {inp['cli']} differs from the command line alone{diff_opts(rb, rc)}"
+        else:
+            continue
+        ctx.case(f"corpus finding {sig}", True, None)
+        ctx.count(f"corpus:finding:{status}:{'fails' if bad else 'passes'}")
+        if bad:
+            ctx.fail(sig, inp, "recorded finding: " + bad)
+        elif status == "open":
+            ctx.notes.append(f"open finding {sig}: its recorded input no longer fails")
+    sc.clear()
+    # seeded shapes (seeded/C20*/meta.json "needs")
+    shapes: List[Tuple[str, str, List[str], List[str], str]] = [
+        # (file, text, args when the file is read, equivalent command line, signature when they differ)
+        ("setup.cfg", "[tool:pydoctor]\nproject-name = '''My Project\n    API reference'''\n", [], ["--project-name=My Project\nAPI reference"], "ini-quoted-value:3s"),
+        ("pydoctor.ini", "[pydoctor]\nintersphinx = \n    a\n    '''b\n    c'''\n", [], ["--intersphinx=a", "--intersphinx='''b", "--intersphinx=c'''"], "append-order:ini"),
+        ("docs.conf", "[pydoctor]\nverbose = 1\nhtml-viewsource-template = {mod_source_href}?plain=1#L{lineno}\nhtml-viewsource-base = https://github.com/t/p/tree/m\n",
+         ["--config=docs.conf"], ["--verbose", "--html-viewsource-template={mod_source_href}?plain=1#L{lineno}", "--html-viewsource-base=https://github.com/t/p/tree/m", "--config=docs.conf"], SIG_CRASH),
+        ("setup.cfg", "[tool.pydoctor]\nhtml-viewsource-template = {mod_source_href}?plain=1#L{lineno}\n", [], ["--html-viewsource-template={mod_source_href}?plain=1#L{lineno}"], SIG_CRASH),
+        ("pyproject.toml", "[tool.pydoctor]\npyval-repr-maxlines = 0\npyval-repr-linelen = 0\nsidebar-toc-depth = 0\n", [],
+         ["--pyval-repr-maxlines=0", "--pyval-repr-linelen=0", "--sidebar-toc-depth=0"], "file-ne-cli:store:toml"),
+        ("pyproject.toml", "[tool.pydoctor]\nsidebar-expand-depth = 0\n", [], ["--sidebar-expand-depth=0"], "file-ne-cli:store:toml"),
+        ("pyproject.toml", "[tool.pydoctor]\nverbose = 0\nwarnings-as-errors = false\n", [], [], "file-ne-cli:count:toml"),
+    ]
+    for uk, val in (("project_name", '"x"'), ("html_output", '"x"'), ("make_html", "true")):
+        for fname, header, fmt in FILES:
+            v = val if fmt == "toml" else val.strip('"')
+            sc.clear()
+            sc.write(fname, f"{header}\n{uk} = {v}\nproject-version = {toml_basic('1') if fmt == 'toml' else '1'}\n")
+            r = sc.run([])
+            ctx.case(f"corpus unknown {fname} {uk}", True, None)
+            ctx.count("corpus:seeded-shape:unknown-key")
+            inp = {"mode": "unknown", "file": fname, "key": uk, "text": f"{header}\n{uk} = {v}\nproject-version = {toml_basic('1') if fmt == 'toml' else '1'}\n",
+                   "text_without": f"{header}\nproject-version = {toml_basic('1') if fmt == 'toml' else '1'}\n"}
+            if r["kind"] != "ok":
+                ctx.fail("unknown-key:aborts", inp, f"{fname}: unknown key {uk!r} -> {short(r)}")
+            elif r["warnings"] != [f"No such config option: {uk!r}"]:
+                ctx.fail("unknown-key:not-warned-once", inp, f"{fname}: unknown key {uk!r}: warnings {r['warnings']}")
+            elif r["options"].projectname is not None or r["options"].htmloutput != "apidocs":
+                ctx.fail("unknown-key:applied", inp, f"{fname}: unknown key {uk!r} was applied")
+    for fname, text, fargs, cli, sig in shapes:
+        sc.clear()
+        sc.write(fname, text)
+        rf = sc.run(fargs)
+        if os.path.exists(fname) and fname not in headers:
+            os.remove(fname)
+        sc.clear()
+        rc = sc.run([a for a in cli if not a.startswith("--config=")])
+        ctx.case(f"corpus shape {fname} {text}", True, None)
+        ctx.count("corpus:seeded-shape:file-vs-cli")
+        if outcome_key(rf) != outcome_key(rc):
+            real = SIG_CRASH if rf["kind"] == "raise" else sig
+            ctx.fail(real, {"mode": "eq", "file": fname, "text": text, "cli": cli}, f"{fname} {text!r} -> {short(rf)}{diff_opts(rf, rc)}; command line {cli} -> {short(rc)}")
+    # an INI-only file given through --config, then a pyproject.toml that uses TOML-only syntax (comment, literal string)
+    sc.clear()
+    sc.write("project.conf", "[tool:pydoctor]\nquiet = 1\n")
+    sc.write("pyproject.toml", "[tool.pydoctor]\nproject-name = \"Demo\"          # shown at the top of each page\nhtml-output = 'build\\new-docs'\n")
+    rf = sc.run(["--config=project.conf"])
+    os.remove("project.conf")
+    rf2 = sc.run([])
+    sc.clear()
+    rc = sc.run(["--quiet", "--project-name=Demo", "--html-output=build\\new-docs"])
+    rc2 = sc.run(["--project-name=Demo", "--html-output=build\\new-docs"])
+    ctx.case("corpus shape --config INI-only file + pyproject.toml with a comment and a literal string", True, None)
+    ctx.count("corpus:seeded-shape:file-vs-cli", 2)
+    for a, b, what in ((rf, rc, "--config=project.conf + pyproject.toml"), (rf2, rc2, "pyproject.toml alone, afterwards")):
+        if outcome_key(a) != outcome_key(b):
+            ctx.fail("file-ne-cli:store:toml", {"mode": "eq", "file": "pyproject.toml", "text": "project-name = \"Demo\"  # comment / html-output = 'build\\new-docs'", "cli": ["--project-name=Demo"]},
+                     f"{what}: differs from the command line{diff_opts(a, b)}")
+
+
 # ------------------------------------------------------------------ run / replay
 
 def run(ctx: Ctx) -> None:
     with warnings.catch_warnings():
         warnings.simplefilter("ignore", SyntaxWarning)
         warnings.simplefilter("ignore", DeprecationWarning)
+        sc = Scratch()
+        try:
+            stream_corpus(ctx, sc)            # recorded findings and seeded shapes first, whatever the seed
+        finally:
+            sc.close()
         stream_quoting(ctx)
         stream_ini_values(ctx)
         stream_toml_and_sections(ctx)
+        stream_sections_and_toml_lookup(ctx)
+        stream_composite(ctx)
         sc = Scratch()
         try:
+            stream_from_namespace(ctx, sc)
             stream_string_files(ctx, sc)
             stream_options(ctx, sc)
             stream_unquoted_ini(ctx, sc)
